@@ -307,8 +307,12 @@ class TagIndex(Index):
 
     def convert(self, event: Event):
         for tag in event.tags:
-            if len(tag) >= 2 and (
-                len(tag[0]) == 1 or tag[0] in ("expiration", "delegation")
+            if (
+                len(tag) >= 2
+                and (len(tag[0]) == 1 or tag[0] in ("expiration", "delegation"))
+                # a nested array reads back from the record as a tuple, which renders
+                # differently: the entry written for it could never be cleared again
+                and not isinstance(tag[1], (list, tuple, dict))
             ):
                 yield self.to_key((tag[0], str(tag[1])))
 
